@@ -266,3 +266,95 @@ def aliased_lists(o, limit=200000):
         elif isinstance(x, (deque, tuple, set)):
             stack.extend(x)
     return dup
+
+
+def to_lab(o):
+    """object graph -> (Lab JSON for Drive/C11 `refs`, {id(obj): lab id}); same traversal as encode_to_dict"""
+    colang_ast, ev, flows, ser = _mods()
+    ids = {}
+
+    def walk(x):
+        if isinstance(x, list):
+            return {"q": [walk(y) for y in x]}
+        if x is None or isinstance(x, (str, int, float, functools.partial)):
+            return 0
+        n = ids.setdefault(id(x), len(ids))
+        if isinstance(x, dict):
+            kids = [walk(y) for y in x.values()]
+        elif is_dataclass(x):
+            kids = [walk(getattr(x, f)) for f in x.__dataclass_fields__.keys()]
+        elif isinstance(x, (colang_ast.SpecType, flows.Action, datetime, Enum)):
+            kids = []
+        elif isinstance(x, (deque, tuple, set)):
+            kids = [walk(y) for y in x]
+        else:
+            raise TypeError("unsupported")
+        return {"n": [n, 0, kids]}
+
+    return walk(o), ids
+
+
+def enc_skeleton(d, ids):
+    """what encode_to_dict produced (before json.dumps) -> the shape Drive/C11.encToJson prints.
+    A definition carries its lab id only when the encoder wrote an __id (i.e. it is referenced later)."""
+    if isinstance(d, list):
+        return {"q": [enc_skeleton(x, ids) for x in d]}
+    if not isinstance(d, dict):
+        return 0
+    t = d.get("__type")
+    if t == "ref":
+        return {"ref": ids.get(d["__id"], -1)}
+    if t in ("Action", "datetime", "enum", "SpecType"):
+        kids = []
+    elif t in ("tuple", "set", "deque"):
+        kids = [enc_skeleton(x, ids) for x in d["value"]]
+    else:
+        kids = [enc_skeleton(x, ids) for x in d["value"].values()]
+    return {"def": [ids.get(d["__id"], -1) if "__id" in d else None, kids]}
+
+
+def skeleton_diff(real, model, referenced=None, path="$"):
+    """compare; a real definition without __id must not be referenced anywhere in the model output"""
+    if referenced is None:
+        referenced = set()
+
+        def collect(m):
+            if isinstance(m, dict):
+                if "ref" in m:
+                    referenced.add(m["ref"])
+                for k in ("q",):
+                    if k in m:
+                        for x in m[k]:
+                            collect(x)
+                if "def" in m:
+                    for x in m["def"][1]:
+                        collect(x)
+        collect(model)
+    if isinstance(real, dict) and isinstance(model, dict):
+        if "ref" in real or "ref" in model:
+            return None if real == model else f"{path}: impl {real} model {model}"
+        if "q" in real and "q" in model:
+            if len(real["q"]) != len(model["q"]):
+                return f"{path}: list length"
+            for i, (a, b) in enumerate(zip(real["q"], model["q"])):
+                d = skeleton_diff(a, b, referenced, f"{path}[{i}]")
+                if d:
+                    return d
+            return None
+        if "def" in real and "def" in model:
+            rid, mid = real["def"][0], model["def"][0]
+            if rid is None:
+                if mid in referenced:
+                    return f"{path}: object {mid} is referenced later but carries no __id"
+            elif rid != mid:
+                return f"{path}: definition of object {rid} vs model {mid}"
+            elif mid not in referenced:
+                return f"{path}: object {mid} carries an __id but is never referenced"
+            if len(real["def"][1]) != len(model["def"][1]):
+                return f"{path}: children"
+            for i, (a, b) in enumerate(zip(real["def"][1], model["def"][1])):
+                d = skeleton_diff(a, b, referenced, f"{path}.{i}")
+                if d:
+                    return d
+            return None
+    return None if real == model else f"{path}: impl {json.dumps(real)[:80]} model {json.dumps(model)[:80]}"
